@@ -114,6 +114,7 @@ func gcExec(c *runCtx, ops []string) {
 	var last string
 	same := 0
 	dirty := false // a history op happened since the last epoch advance
+	var lastEpoch uint64
 	for _, line := range ops {
 		o := parseOp(line)
 		c.count(o.name)
@@ -122,6 +123,7 @@ func gcExec(c *runCtx, ops []string) {
 				w.close()
 			}
 			w = newGCWorld(o.int("batch"))
+			lastEpoch, dirty = 0, false
 			c.emit(line, "=> ok")
 			continue
 		}
@@ -147,7 +149,10 @@ func gcExec(c *runCtx, ops []string) {
 			w.epoch.e.Store(o.u64("e"))
 			w.sh.VerifHandleNewEpoch(o.u64("e"))
 			res = "=> ok"
-			dirty = false
+			if o.u64("e") > lastEpoch { // "with epochs advancing": a repeated announcement of the same epoch is no advance
+				dirty = false
+			}
+			lastEpoch = max(lastEpoch, o.u64("e"))
 		case "gc":
 			w.sh.VerifRemoveGarbage()
 			res = "=> ok"
